@@ -42,14 +42,42 @@ pub fn guarded<T>(f: impl FnOnce() -> T) -> Result<T, String> {
 /// Runs one case in a fresh thread, so that the thread-local slot table starts empty
 /// (fresh counter at `$f0`, no interned names).
 pub fn in_fresh_thread<T: Send + 'static>(f: impl FnOnce() -> T + Send + 'static) -> Result<T, String> {
+    // watchdog: a case that does not return within CASE_TIMEOUT_S is reported (the thread cannot be killed and keeps
+    // spinning until the process exits; after a few of them the shard gives up)
+    let (tx, rx) = std::sync::mpsc::channel();
     let h = std::thread::Builder::new()
         .stack_size(64 << 20)
-        .spawn(move || guarded(f))
+        .spawn(move || {
+            let r = guarded(f);
+            let _ = tx.send(r);
+        })
         .unwrap();
-    match h.join() {
-        Ok(r) => r,
-        Err(_) => Err("thread-died".to_string()),
+    match rx.recv_timeout(std::time::Duration::from_secs(case_timeout_s())) {
+        Ok(r) => {
+            let _ = h.join();
+            r
+        }
+        Err(std::sync::mpsc::RecvTimeoutError::Timeout) => {
+            let n = HANGS.fetch_add(1, std::sync::atomic::Ordering::SeqCst) + 1;
+            if n >= 4 {
+                eprintln!("harness: {n} cases did not return; giving up on this shard");
+                use std::io::Write;
+                let _ = std::io::stdout().flush();
+                std::process::exit(3);
+            }
+            Err(format!("no-return-within-{}s", case_timeout_s()))
+        }
+        Err(_) => match h.join() {
+            Ok(()) => Err("thread-died".to_string()),
+            Err(_) => Err("thread-died".to_string()),
+        },
     }
+}
+
+pub static HANGS: std::sync::atomic::AtomicUsize = std::sync::atomic::AtomicUsize::new(0);
+
+pub fn case_timeout_s() -> u64 {
+    std::env::var("SV_CASE_TIMEOUT_S").ok().and_then(|x| x.parse().ok()).unwrap_or(90)
 }
 
 /// The names the harness interns first in every case thread: `n0`, `n1`, … get codes 2, 6, …
